@@ -64,14 +64,14 @@ impl PublicKey {
     pub(crate) fn to_decompressed_impl(&self) -> Result<PublicKey, BSVErrors> {
         use elliptic_curve::DecompressPoint;
 
-        let point = EncodedPoint::<Secp256k1>::from_bytes(&self.point).unwrap();
+        let point = EncodedPoint::<Secp256k1>::from_bytes(&self.point).map_err(|e| BSVErrors::PublicKeyError(e.to_string()))?;
 
         let decompressed_point: EncodedPoint<Secp256k1> = match point.coordinates() {
             Coordinates::Compressed { x, y_is_odd } => AffinePoint::decompress(x, Choice::from(y_is_odd as u8)).map(|s| s.to_encoded_point(false)).into(),
             Coordinates::Compact { .. } | Coordinates::Identity => None,
             Coordinates::Uncompressed { .. } => Some(point),
         }
-        .unwrap();
+        .ok_or_else(|| BSVErrors::PublicKeyError("Public key is not a point on the curve".to_string()))?;
 
         Ok(PublicKey::from_encoded_point(&decompressed_point))
     }
